@@ -509,12 +509,20 @@ func run(c *vh.Ctx) {
 		runTicket(c, e, i)
 	}
 	// 4. histories on one Config against the model
-	nH := c.N / 8
+	nH := c.N / 10
 	if nH < 8 {
 		nH = 8
 	}
 	for i := 0; i < nH; i++ {
 		runHistory(c, e, i)
+	}
+	// 4b. families of Configs related by Clone
+	nF := c.N / 10
+	if nF < 6 {
+		nF = 6
+	}
+	for i := 0; i < nF; i++ {
+		runFamily(c, e, i)
 	}
 	// 5. resumption through a forged ClientSessionState
 	runResume(c, e)
@@ -599,9 +607,39 @@ func runTicket(c *vh.Ctx, e *env, idx int) {
 		}
 		c.Count("truncations")
 	}
-	ext := append(append([]byte{}, ticket...), byte(r.Intn(256)))
-	if s, _ := cfg.DecryptTicket(ext, tls.ConnectionState{}); s != nil {
-		c.Fail("ticket-extension", "a ticket with an appended byte is accepted", vh.Hex(ext), "state", "nil")
+	// insertions and extensions: k arbitrary bytes in front, behind and inside, k = 1..64; the ticket twice; two
+	// valid tickets glued together (either order) — none of these strings is iv||ct||tag of the whole input
+	g2 := genState(r, e.ders, 0)
+	ss2, _ := tls.ParseSessionState(g2.refBytes())
+	ticket2, _ := cfg.EncryptTicket(tls.ConnectionState{}, ss2)
+	tryBad := func(key, what string, t []byte, detail any) bool {
+		c.Count("insertions")
+		if s, _ := cfg.DecryptTicket(t, tls.ConnectionState{}); s != nil {
+			c.Fail(key, what, map[string]any{"ticket": vh.Hex(ticket), "modified": vh.Hex(t), "detail": detail}, "state", "nil")
+			return true
+		}
+		return false
+	}
+	for k := 1; k <= 64; k++ {
+		junk := make([]byte, k)
+		r.Read(junk)
+		pos := 1 + r.Intn(len(ticket)-1)
+		ins := append(append(append([]byte{}, ticket[:pos]...), junk...), ticket[pos:]...)
+		if tryBad(fmt.Sprintf("ticket-prepend/%d", k), "a valid ticket with arbitrary bytes in front of it is accepted", append(append([]byte{}, junk...), ticket...), k) ||
+			tryBad(fmt.Sprintf("ticket-append/%d", k), "a valid ticket with arbitrary bytes appended is accepted", append(append([]byte{}, ticket...), junk...), k) ||
+			tryBad(fmt.Sprintf("ticket-insert/%d", k), "a valid ticket with arbitrary bytes inserted is accepted", ins, map[string]int{"k": k, "pos": pos}) {
+			break
+		}
+		// the same with bytes taken from the ticket itself (iv / tag / leading part repeated)
+		if k <= len(ticket) && (tryBad(fmt.Sprintf("ticket-prepend-own/%d", k), "a valid ticket preceded by a copy of its own first bytes is accepted", append(append([]byte{}, ticket[:k]...), ticket...), k) ||
+			tryBad(fmt.Sprintf("ticket-append-own/%d", k), "a valid ticket followed by a copy of its own last bytes is accepted", append(append([]byte{}, ticket...), ticket[len(ticket)-k:]...), k)) {
+			break
+		}
+	}
+	tryBad("ticket-duplicated", "a ticket followed by itself is accepted", append(append([]byte{}, ticket...), ticket...), nil)
+	if ticket2 != nil {
+		tryBad("ticket-concat", "two valid tickets glued together are accepted", append(append([]byte{}, ticket...), ticket2...), "t1||t2")
+		tryBad("ticket-concat", "two valid tickets glued together are accepted", append(append([]byte{}, ticket2...), ticket...), "t2||t1")
 	}
 	// rotations: the sealing key moves back, then disappears
 	rot := append([][32]byte{key32(r)}, keys...)
@@ -624,6 +662,84 @@ func runTicket(c *vh.Ctx, e *env, idx int) {
 		c.Fail("rotation-dropped", "ticket sealed by a key that is no longer configured is accepted", g, "state", "nil")
 	}
 	c.Count("rotations")
+}
+
+// a ticket seen before, unchanged (half of the time) or modified: bit flip, truncation, k bytes (k = 1..64, often
+// 16/32/48) prepended / appended / inserted, the ticket twice, two tickets glued together
+func mutateTicket(r *rand.Rand, tickets [][]byte) []byte {
+	t := append([]byte{}, tickets[r.Intn(len(tickets))]...)
+	k := []int{16, 32, 48, 1 + r.Intn(64), 1 + r.Intn(64)}[r.Intn(5)]
+	junk := make([]byte, k)
+	r.Read(junk)
+	if len(t) == 0 {
+		return t
+	}
+	switch r.Intn(14) {
+	case 0:
+		t[r.Intn(len(t))] ^= 1 << uint(r.Intn(8))
+	case 1:
+		t = t[:r.Intn(len(t)+1)]
+	case 2:
+		t = t[:r.Intn(49)%(len(t)+1)]
+	case 3:
+		t = append(junk, t...)
+	case 4:
+		t = append(t, junk...)
+	case 5:
+		pos := r.Intn(len(t))
+		t = append(append(append([]byte{}, t[:pos]...), junk...), t[pos:]...)
+	case 6:
+		t = append(t, t...)
+	case 7:
+		t = append(t, tickets[r.Intn(len(tickets))]...)
+	case 8:
+		if k > len(t) {
+			k = len(t)
+		}
+		t = append(append([]byte{}, t[:k]...), t...) // own leading bytes (e.g. the iv) repeated in front
+	}
+	return t
+}
+
+// lookup tables for the model: SHA-512 of every candidate key; per ticket, HMAC under every candidate key over all
+// bytes but the last 32, and the CTR keystream under the keys whose tag verifies
+func buildTables(cands [][32]byte, tickets [][]byte) *tabs {
+	tb := &tabs{seen: map[string]bool{}}
+	type kd struct{ aes, hm []byte }
+	var kds []kd
+	for _, k := range cands {
+		h := sha512.Sum512(k[:])
+		tb.add("sh", fmt.Sprintf("(%s, %s)", vh.Bytes(k[:]), vh.Bytes(h[:])), &tb.sh)
+		kds = append(kds, kd{append([]byte{}, h[16:32]...), append([]byte{}, h[32:48]...)})
+	}
+	seenT := map[string]bool{}
+	for _, t := range tickets {
+		if len(t) < 48 || seenT[string(t)] {
+			continue
+		}
+		seenT[string(t)] = true
+		auth, tag := t[:len(t)-32], t[len(t)-32:]
+		var per []string
+		seenK := map[string]bool{}
+		for _, k := range kds {
+			if seenK[string(k.hm)] {
+				continue
+			}
+			seenK[string(k.hm)] = true
+			m := hmac.New(sha256.New, k.hm)
+			m.Write(auth)
+			sum := m.Sum(nil)
+			per = append(per, fmt.Sprintf("(%s, %s)", vh.Bytes(k.hm), vh.Bytes(sum)))
+			if bytes.Equal(sum, tag) { // the keystream is only ever needed under a key whose tag verifies
+				blk, _ := aes.NewCipher(k.aes)
+				ksb := make([]byte, len(t)-48)
+				cipher.NewCTR(blk, t[:16]).XORKeyStream(ksb, ksb)
+				tb.add("ks", fmt.Sprintf("(%s, %s, %s)", vh.Bytes(k.aes), vh.Bytes(t[:16]), vh.Bytes(ksb)), &tb.ks)
+			}
+		}
+		tb.hm = append(tb.hm, fmt.Sprintf("(%s, %s)", vh.Bytes(auth), vh.List(per)))
+	}
+	return tb
 }
 
 type readerFunc func(p []byte) (int, error)
@@ -665,6 +781,7 @@ func runHistory(c *vh.Ctx, e *env, idx int) {
 	var ops []string
 	var tickets [][]byte
 	var kinds []string
+	var usedDers [][]byte
 	nops := 3 + r.Intn(8)
 	mode := idx % 3 // 0: explicit keys, 1: automatic rotation, 2: mixed incl. legacy field
 	for i := 0; i < nops; i++ {
@@ -735,19 +852,20 @@ func runHistory(c *vh.Ctx, e *env, idx int) {
 			}
 			ops = append(ops, fmt.Sprintf("HSeal %s %s", g.coq(), optBytes(err == nil, t)))
 			kinds = append(kinds, "seal")
+			for _, d := range g.usedCerts() {
+				dup := false
+				for _, u := range usedDers {
+					dup = dup || bytes.Equal(u, d)
+				}
+				if !dup {
+					usedDers = append(usedDers, d)
+				}
+			}
 			if err == nil {
 				tickets = append(tickets, t)
 			}
 		default:
-			t := append([]byte{}, tickets[r.Intn(len(tickets))]...)
-			switch r.Intn(6) {
-			case 0:
-				t[r.Intn(len(t))] ^= 1 << uint(r.Intn(8))
-			case 1:
-				t = t[:r.Intn(len(t)+1)]
-			case 2:
-				t = t[:r.Intn(49)%(len(t)+1)]
-			}
+			t := mutateTicket(r, tickets)
 			var s *tls.SessionState
 			p, pv := vh.Recover(func() { s, _ = cfg.DecryptTicket(t, tls.ConnectionState{}) })
 			if p {
@@ -767,43 +885,167 @@ func runHistory(c *vh.Ctx, e *env, idx int) {
 			tickets = append(tickets, t)
 		}
 	}
-	// tables: SHA-512 of every candidate key; HMAC / keystream of every candidate key over every ticket seen
-	tb := &tabs{seen: map[string]bool{}}
-	type kd struct{ aes, hm []byte }
-	var kds []kd
-	for _, k := range cands {
-		h := sha512.Sum512(k[:])
-		tb.add("sh", fmt.Sprintf("(%s, %s)", vh.Bytes(k[:]), vh.Bytes(h[:])), &tb.sh)
-		kds = append(kds, kd{append([]byte{}, h[16:32]...), append([]byte{}, h[32:48]...)})
-	}
-	seenT := map[string]bool{}
-	for _, t := range tickets {
-		if len(t) < 48 || seenT[string(t)] {
-			continue
-		}
-		seenT[string(t)] = true
-		auth, tag := t[:len(t)-32], t[len(t)-32:]
-		var per []string
-		seenK := map[string]bool{}
-		for _, k := range kds {
-			if seenK[string(k.hm)] {
-				continue
-			}
-			seenK[string(k.hm)] = true
-			m := hmac.New(sha256.New, k.hm)
-			m.Write(auth)
-			sum := m.Sum(nil)
-			per = append(per, fmt.Sprintf("(%s, %s)", vh.Bytes(k.hm), vh.Bytes(sum)))
-			if bytes.Equal(sum, tag) { // the keystream is only ever needed under a key whose tag verifies
-				blk, _ := aes.NewCipher(k.aes)
-				ksb := make([]byte, len(t)-48)
-				cipher.NewCTR(blk, t[:16]).XORKeyStream(ksb, ksb)
-				tb.add("ks", fmt.Sprintf("(%s, %s, %s)", vh.Bytes(k.aes), vh.Bytes(t[:16]), vh.Bytes(ksb)), &tb.ks)
-			}
-		}
-		tb.hm = append(tb.hm, fmt.Sprintf("(%s, %s)", vh.Bytes(auth), vh.List(per)))
-	}
-	term := fmt.Sprintf("CHist %s %s %s %s %s %d%%Z %s", vh.List(tb.sh), vh.List(tb.hm), vh.List(tb.ks), e.goodCoq,
+	tb := buildTables(cands, tickets)
+	term := fmt.Sprintf("CHist %s %s %s %s %s %d%%Z %s", vh.List(tb.sh), vh.List(tb.hm), vh.List(tb.ks), coqBytesList(usedDers),
 		vh.Bytes(append(all, make([]byte, 64)...)), t0, vh.List(ops))
 	c.Case("history", term, fmt.Sprintf("hist/%d/%s", mode, strings.Join(kinds, ",")), len(tickets) >= 2, map[string]any{"mode": mode, "ops": kinds})
+}
+
+// ---------- families of Configs: Clone before / after rotations, rotate original and clones ----------
+// After every step every member seals a ticket and every member tries the newest ticket of every member.
+// Oracle (property text): a config opens a ticket iff the key that sealed it is among the keys last set on THAT
+// config (inherited through Clone at clone time) — rotating one member must not change any other.
+func runFamily(c *vh.Ctx, e *env, idx int) {
+	r := c.Rng
+	stream := rand.New(rand.NewSource(r.Int63()))
+	var all []byte
+	var cands [][32]byte
+	rd := readerFunc(func(p []byte) (int, error) {
+		stream.Read(p)
+		all = append(all, p...)
+		if len(p) == 32 {
+			var k [32]byte
+			copy(k[:], p)
+			cands = append(cands, k)
+		}
+		return len(p), nil
+	})
+	t0 := int64(1700000000 + r.Intn(100000))
+	cfgs := []*tls.Config{{Rand: rd, Time: func() time.Time { return time.Unix(t0, 0) }}}
+	expect := [][][32]byte{nil} // keys the runner expects to be in force on each member
+	var ops, kinds []string
+	var tickets [][]byte
+	type sealed struct {
+		t   []byte
+		key [32]byte
+		st  []byte
+	}
+	newest := []*sealed{nil}
+	setKeys := func(i int) {
+		n := 1 + r.Intn(3)
+		if len(expect[i]) > 0 && r.Intn(2) == 0 {
+			n = 1 + r.Intn(len(expect[i])) // at most as many as before: the new set fits the old storage
+		}
+		ks := make([][32]byte, n)
+		var it []string
+		for j := range ks {
+			ks[j] = key32(r)
+			cands = append(cands, ks[j])
+			it = append(it, vh.Bytes(ks[j][:]))
+		}
+		cfgs[i].SetSessionTicketKeys(ks)
+		expect[i] = ks
+		ops = append(ops, fmt.Sprintf("FOn %d (HSetKeys %s false)", i, vh.List(it)))
+		kinds = append(kinds, fmt.Sprintf("set%d", i))
+	}
+	clone := func(i int) {
+		cfgs = append(cfgs, cfgs[i].Clone())
+		expect = append(expect, expect[i])
+		newest = append(newest, nil)
+		ops = append(ops, fmt.Sprintf("FClone %d", i))
+		kinds = append(kinds, fmt.Sprintf("clone%d", i))
+	}
+	exercise := func(step string) bool {
+		for i, cfg := range cfgs {
+			g := genState(r, e.ders, 0)
+			g.Extra = nil
+			if len(g.Secret) > 12 {
+				g.Secret = g.Secret[:12]
+			}
+			ss, err := tls.ParseSessionState(g.refBytes())
+			if err != nil {
+				c.Fail("codec-parse-valid", "ParseSessionState rejects a valid encoding", vh.Hex(g.refBytes()), fmt.Sprint(err), "state")
+				return false
+			}
+			t, err := cfg.EncryptTicket(tls.ConnectionState{}, ss)
+			ops = append(ops, fmt.Sprintf("FOn %d (HSeal %s %s)", i, g.coq(), optBytes(err == nil, t)))
+			if err != nil {
+				c.Fail("family-seal", "EncryptTicket fails on a member of a Config family", map[string]any{"history": kinds, "member": i}, fmt.Sprint(err), "ticket")
+				return false
+			}
+			tickets = append(tickets, t)
+			newest[i] = &sealed{t, expect[i][0], g.refBytes()}
+			// the ticket must be sealed under the first key last set on THIS member
+			if want := sealRef(expect[i][0], t[:16], g.refBytes()); !bytes.Equal(t, want) {
+				c.Fail(fmt.Sprintf("clone-independence/seal/%s", step), "a member of a Config family does not seal with the first key last set on it (another member's rotation leaked into it)",
+					map[string]any{"history": kinds, "member": i}, vh.Hex(t), vh.Hex(want))
+				return false
+			}
+		}
+		for i, cfg := range cfgs {
+			for j, sl := range newest {
+				if sl == nil {
+					continue
+				}
+				s, _ := cfg.DecryptTicket(sl.t, tls.ConnectionState{})
+				obs := "None"
+				if s != nil {
+					if b, err := s.Bytes(); err == nil {
+						obs = optBytes(true, b)
+					}
+				}
+				ops = append(ops, fmt.Sprintf("FOn %d (HOpen %s %s)", i, vh.Bytes(sl.t), obs))
+				has := false
+				for _, k := range expect[i] {
+					has = has || k == sl.key
+				}
+				got := "nil"
+				if s != nil {
+					got = "state"
+				}
+				in := map[string]any{"history": kinds, "opening_member": i, "sealing_member": j, "ticket": vh.Hex(sl.t)}
+				if has && s == nil {
+					c.Fail(fmt.Sprintf("clone-independence/open-refused/%s", step), "a Config no longer opens a ticket sealed under a key that is still configured on it (keys changed by a rotation on another member of its Clone family)", in, got, "state")
+					return false
+				}
+				if !has && s != nil {
+					c.Fail(fmt.Sprintf("clone-independence/open-foreign/%s", step), "a Config opens a ticket sealed under a key that was never configured on it (keys of a Clone relative leaked)", in, got, "nil")
+					return false
+				}
+				if has && s != nil {
+					if b, _ := s.Bytes(); !bytes.Equal(b, sl.st) {
+						c.Fail("clone-independence/state", "state differs after a family round trip", in, vh.Hex(b), vh.Hex(sl.st))
+						return false
+					}
+				}
+			}
+		}
+		return true
+	}
+	setKeys(0)
+	steps := 3 + r.Intn(3)
+	ok := exercise("initial")
+	for s := 0; ok && s < steps; s++ {
+		step := ""
+		if len(cfgs) < 3 && (r.Intn(2) == 0 || len(cfgs) == 1) {
+			clone(r.Intn(len(cfgs)))
+			step = "after-clone"
+		} else {
+			i := r.Intn(len(cfgs))
+			setKeys(i)
+			step = "after-rotation"
+			if i == 0 {
+				step = "after-rotating-original"
+			}
+		}
+		ok = exercise(step)
+	}
+	// a few modified tickets on random members, for the model
+	for k := 0; ok && k < 3; k++ {
+		i := r.Intn(len(cfgs))
+		t := mutateTicket(r, tickets)
+		s, _ := cfgs[i].DecryptTicket(t, tls.ConnectionState{})
+		obs := "None"
+		if s != nil {
+			if b, err := s.Bytes(); err == nil {
+				obs = optBytes(true, b)
+			}
+		}
+		ops = append(ops, fmt.Sprintf("FOn %d (HOpen %s %s)", i, vh.Bytes(t), obs))
+		tickets = append(tickets, t)
+	}
+	tb := buildTables(cands, tickets)
+	term := fmt.Sprintf("CFam %s %s %s [] %s %d%%Z %s", vh.List(tb.sh), vh.List(tb.hm), vh.List(tb.ks),
+		vh.Bytes(append(all, make([]byte, 64)...)), t0, vh.List(ops))
+	c.Case("family", term, fmt.Sprintf("fam/%s", strings.Join(kinds, ",")), len(cfgs) > 1, map[string]any{"ops": kinds})
 }
